@@ -132,7 +132,7 @@ def check(cx):
 
     # ---------------------------------------------------------------- R11.8 imported: WALLOPS set under NICK
     r8 = cx.rule('R11.8', 'WALLOPS audience under nick changes (imported)', floor=1, kind='dependency')
-    depends(cx, r8, 'C15', ('R15.1', 'R15.2'), 'the WALLOPS set is re-keyed exactly on accepted nick changes', only=r'wallops')
+    depends(cx, r8, 'C15', ('R15.1', 'R15.2'), 'the WALLOPS set is re-keyed exactly on accepted nick changes', only=r'wallops-condition\|(stale|spurious-insert)|unguarded\|(remove|insert) \$state\.wallops_users')
 
     # ---------------------------------------------------------------- R11.7 a set flag can always be dropped
     r6 = cx.rule('R11.7', 'MODE -<letter> clears a set flag unconditionally', floor=3, kind='entailment')
